@@ -208,7 +208,7 @@ func run() int {
 			}
 			continue
 		}
-		if ct.Props[*prop] {
+		if ct.Props[*prop] && !ct.Trusted {
 			addFn(w.FnByKey[k], ct, false)
 		}
 	}
